@@ -206,6 +206,8 @@ class Exec(Engine):
                 return self.quantified(f.id, node.args[0], st, node)
             if f.id == 'implies' and self.pure:
                 a = self.truthy(self.ev1(node.args[0], st), st)
+                if a.lit is not None and not a.lit[1]:
+                    return [(VBool(TRUE), st)]      # guard is literally false: the consequent may be meaningless
                 b = self.truthy(self.ev1(node.args[1], st), st)
                 return [(VBool(Implies(a, b)), st)]
             if f.id in ('exists', 'forall') and self.pure:
@@ -772,10 +774,16 @@ class Exec(Engine):
                         names.add(m.attr)
         for k in c.raises:
             names.add(k.rstrip('*?'))
+        import re as _re
+        for _, text in c.requires + c.ensures + c.reach:
+            names.update(_re.findall(r'[A-Za-z_][A-Za-z_0-9]*', text))
+        for when in c.raises.values():
+            if when:
+                names.update(_re.findall(r'[A-Za-z_][A-Za-z_0-9]*', when))
         classes = []
         for nm in sorted(names):
             k = self.exc_class(nm)
-            if k is not None and k not in classes:
+            if isinstance(k, type) and issubclass(k, BaseException) and k not in classes:
                 classes.append(k)
         cache[c.qualname] = classes
         return classes
@@ -1638,6 +1646,10 @@ class Exec(Engine):
         seen = seen if seen is not None else set()
         if ty[0] in ('opt', 'list'):
             return self.union_fields(ty[1], seen)
+        if ty[0] == 'tuple':
+            for t in ty[1]:
+                out.extend(self.union_fields(t, seen))
+            return out
         if ty[0] == 'obj' and ty[1] in C.RECORDS and ty[1] not in seen:
             seen.add(ty[1])
             for f, fty in C.RECORDS[ty[1]].items():
@@ -1647,14 +1659,37 @@ class Exec(Engine):
                     for alt in p[1]:
                         out.extend(self.union_fields(alt, seen))
                 else:
+                    inner = self.nested_union(p)
+                    if inner is not None:
+                        out.append(('%s.%s' % (ty[1], f), len(inner[1])))
                     out.extend(self.union_fields(p, seen))
         return out
+
+    def nested_union(self, ty):
+        """The (single) union met inside opt/tuple wrappers of a type, expanded; None if there is none."""
+        if ty[0] == 'excunder':
+            return self.expand_type(ty)
+        if ty[0] == 'union':
+            return ty
+        if ty[0] == 'opt':
+            return self.nested_union(ty[1])
+        if ty[0] == 'tuple':
+            found = [u for u in (self.nested_union(t) for t in ty[1]) if u is not None]
+            if len(found) > 1:
+                raise Undecided('more than one union inside one field type')
+            return found[0] if found else None
+        return None
 
     def entry_states(self, c, fnode, fn):
         """Initial symbolic states: one per choice of Optional-None parameters and union alternatives."""
         import itertools
         ufields = []
-        for tyname in c.params.values():
+        for pname, tyname in c.params.items():
+            pty = parse_type(tyname)
+            if pty[0] != 'union':
+                inner = self.nested_union(pty)
+                if inner is not None:
+                    ufields.append(('param:' + pname, len(inner[1])))
             for item in self.union_fields(tyname):
                 if item not in ufields:
                     ufields.append(item)
@@ -1683,10 +1718,10 @@ class Exec(Engine):
                         if alt[0] == 'opt':
                             s2 = s_k.copy()
                             s2.frames[fid][name] = NONE
-                            s_k.frames[fid][name] = self.fresh(alt[1], name, s_k)
+                            s_k.frames[fid][name] = self.fresh(alt[1], name, s_k, 'param:' + name)
                             nxt.extend([s_k, s2])
                         else:
-                            s_k.frames[fid][name] = self.fresh(alt, name, s_k)
+                            s_k.frames[fid][name] = self.fresh(alt, name, s_k, 'param:' + name)
                             nxt.append(s_k)
                 sts = nxt
             for s in sts:
@@ -1814,6 +1849,19 @@ class Exec(Engine):
         def same(a, b):
             if a is b:
                 return TRUE
+            if isinstance(a, VOptSym):
+                # the exit value may be the narrowed form of the entry value (after `x is None` tests)
+                if isinstance(b, VNone):
+                    return a.isnone
+                if isinstance(b, VOptSym):
+                    return And(Eq(a.isnone, b.isnone), Or(a.isnone, same(a.val, b.val)))
+                return And(Not(a.isnone), same(a.val, b))
+            if isinstance(b, VOptSym):
+                return FALSE
+            if isinstance(a, VTuple) and isinstance(b, VTuple) and len(a.items) == len(b.items):
+                return And(*[same(x, y) for x, y in zip(a.items, b.items)])
+            if isinstance(a, VExc) or isinstance(b, VExc):
+                return BoolV(a is b)
             if isinstance(a, VRef) and isinstance(b, VRef):
                 return BoolV(a.loc == b.loc)
             if hasattr(a, 't') and hasattr(b, 't') and type(a) is type(b):
